@@ -169,7 +169,15 @@ func runC06(r *Run) {
 				readerRet = true
 			})
 		}
+		// crossing: while a data write is stuck in the transport (holding the frame lock)
+		// the application calls Close and the peer's own Close frame arrives, so that two
+		// Close payloads are prepared at about the same time
+		crossing := writeStall > 0 && valid && readerMode%2 == 1 && t.Pct(50)
+		crossPayload := wsref.ClosePayload(4001, "the peer closes at the same time")
 		stalled := false
+		if crossing {
+			sig += ",crossing"
+		}
 		if writeStall > 0 {
 			peer.Hold = func() bool { return stalled }
 			sig += ",wstall"
@@ -187,6 +195,16 @@ func runC06(r *Run) {
 					r.S.Kick()
 				})
 				r.S.Count("fault.close-frame-write-stalled")
+			}
+			if crossing {
+				r.S.Go("blocked-writer", func() {
+					c.Write(bg, websocket.MessageBinary, Payload{Kind: 2, Len: 3000, Seed: 5}.Bytes())
+				})
+				r.S.ParkE("a.closer.waitw", func() bool { return rc.Lib.InWriteLocked() || rc.Lib.ClosedLocked() }, nil)
+				time.AfterFunc(300*time.Millisecond, func() {
+					peer.Inject(peer.Encode(wsref.Frame{Fin: true, Opcode: wsref.OpClose, Payload: crossPayload}))
+				})
+				r.S.Count("probe.crossing-closes")
 			}
 			closeErr = c.Close(websocket.StatusCode(code), reason)
 			closeDone = true
@@ -246,10 +264,12 @@ func runC06(r *Run) {
 		if valid {
 			if len(closes) == 0 {
 				r.Violate("close-frame-missing", sig, "Close(%d, %d-byte reason) emitted no Close frame; err=%v", code, len(reason), closeErr)
-			} else if !bytes.Equal(closes[0].Payload, wantPayload) {
+			} else if !bytes.Equal(closes[0].Payload, wantPayload) && !(crossing && bytes.Equal(closes[0].Payload, crossPayload)) {
+				// (with crossing closes the endpoint's one Close frame is either its own
+				// or the echo of the peer's, never a mixture)
 				r.Violate("close-frame-payload", sig, "Close(%d, %d-byte reason) emitted payload %x", code, len(reason), closes[0].Payload)
 			}
-			inTime := echoMode == 0 || echoMode == 3 && delay < 5*time.Second
+			inTime := !crossing && (echoMode == 0 || echoMode == 3 && delay < 5*time.Second)
 			if inTime && closeErr != nil && len(closes) > 0 {
 				r.Violate("close-error-despite-echo", sig, "peer echoed code %d in time but Close returned %v", code, closeErr)
 			}
